@@ -12,8 +12,9 @@ Problem format of the module: `n`, the star count `k` and `blocks`, an n x n tab
 import itertools
 
 NAME = "star_battle"
-STATUS = "model+differential"
-THEOREMS = []
+STATUS = "theorem"
+THEOREMS = ["Cspuz.C11.StarBattle.program_iff_rules", "Cspuz.C11.StarBattle.total"]
+LEAN_FILE = "C11_StarBattle"
 LEAN_CMD = "puz_star_battle"
 
 
